@@ -1,4 +1,5 @@
 import NixModel.Lemmas.C04Hist
+import NixModel.Lemmas.C04Shape
 import NixModel.Lemmas.StoreWF
 
 /-!
@@ -16,9 +17,11 @@ operation history, `history_delete` spells that out), every container and every 
 What is partial:
 * `frame_full` (only links to the deleted object disappear) is false of the code — deletion is by
   `entity_id`, and an id-keeping copy shares its id with the original (DESIGN D13):
-  `frame_partial` + `frame_counterexample`; for every history *without* id-keeping copies the
-  frame is proved at full strength (`history_frame`, `history_delete_exact`, using the invariant
-  `WF.ids_distinct` of `Lemmas/StoreWF`);
+  `frame_partial` + `frame_counterexample`; the graphs on which it holds are characterised exactly
+  (`frame_iff_noSharedLinkedIds`), it holds under `NoSharedIds` (`frame_of_noSharedIds`), and
+  `NoSharedIds` is an invariant of every history *without* id-keeping copies
+  (`noSharedIds_init`, `noSharedIds_step`, `noSharedIds_of_reachable`), for which the frame is
+  proved at full strength (`history_frame`, `history_delete_exact`);
 * `subtree_complete` assumes that the section / source hierarchy below the deleted entity is a
   finite forest (`ForestSize`) of at most `|nodes|² + 1` entities — the collection is fuel-based;
 * that HDF5 frees what became unreachable is not observable through the API and not modelled.
@@ -438,5 +441,175 @@ example : subtreeIds demo2 "sections" 4 = ["id:1", "id:2", "id:3"] := by decide 
 example : ((resolve (step demo2 (.del [] "metadata" (.str "s"))) rootLoc [.name "data", .name "blk", .name "metadata"])).isSome
     = false := by decide +kernel
 example : ((resolve demo2 rootLoc [.name "data", .name "blk", .name "metadata"])).isSome = true := by decide +kernel
+
+/-! ## `NoSharedIds`: the hypothesis of the frame, and when it holds -/
+
+/-- no two objects of the file carry the same `entity_id` -/
+def NoSharedIds (g : Graph) : Prop :=
+  ∀ a b i, g.entityId a = some i → g.entityId b = some i → a = b
+
+/-- `frame_full` restricted to one graph -/
+def FrameOn (g : Graph) : Prop :=
+  ∀ (k : Nat) (i : String), g.entityId k = some i →
+    ∀ (p : Nat) (l : String × Nat), l ∈ g.links p → l.2 ≠ k → l ∈ (g.deleteAll [i]).links p
+
+/-- **the frame under `NoSharedIds`** — `frame_full` with the one hypothesis it needs -/
+theorem frame_of_noSharedIds (g : Graph) (h : NoSharedIds g) : FrameOn g :=
+  fun k i hi p l hl hne => frame_partial g k i (fun k' hk' e => hk' (h k' k i e hi)) p l hl hne
+
+/-- … and that hypothesis is sharp: the frame holds on `g` **iff** no *linked* object shares its
+`entity_id` with another object (an unlinked object is not part of the file) -/
+theorem frame_iff_noSharedLinkedIds (g : Graph) :
+    FrameOn g ↔
+      ∀ (p : Nat) (l : String × Nat) (k : Nat) (i : String),
+        l ∈ g.links p → g.entityId l.2 = some i → g.entityId k = some i → l.2 = k := by
+  constructor
+  · intro h p l k i hl hli hki
+    apply Classical.byContradiction
+    intro hne
+    have := ((mem_deleteAll_links g [i] p l).mp (h k i hki p l hl hne)).2
+    unfold doomed at this
+    rw [hli] at this
+    simp at this
+  · intro h k i hi p l hl hne
+    rw [mem_deleteAll_links]
+    refine ⟨hl, ?_⟩
+    unfold doomed
+    cases hli : g.entityId l.2 with
+    | none => rfl
+    | some j =>
+      have : j ≠ i := fun e => hne (h p l k i hl (by rw [hli, e]) hi)
+      simpa using this
+
+/-- `frame_full` says `FrameOn` of every graph -/
+theorem frame_full_iff : frame_full ↔ ∀ g, FrameOn g := Iff.rfl
+
+/-- a freshly created file has no shared ids -/
+theorem noSharedIds_init : NoSharedIds init := Nix.Store.Lemmas.wf_init.ids_distinct
+
+/-- **`NoSharedIds` is an invariant** of the API calls of the `Op` language (creation, linking,
+unlinking, deletion, role links, attributes, reopen — no id-keeping copy among them): together
+with the other clauses of the well-formedness invariant `WF` it is kept by every call, accepted
+or refused (`uuid4` freshness proviso `Op.Fresh`) -/
+theorem noSharedIds_step (g : Graph) (h : Nix.Store.Lemmas.WF g) (op : Op)
+    (hf : Nix.Store.Lemmas.Op.Fresh g op) :
+    Nix.Store.Lemmas.WF (step g op) ∧ NoSharedIds (step g op) :=
+  ⟨h.step hf, (h.step hf).ids_distinct⟩
+
+/-- hence it holds of every file reachable by such a history -/
+theorem noSharedIds_of_reachable (g : Graph) (hr : Nix.Store.Lemmas.ReachableFresh g) : NoSharedIds g :=
+  hr.wf.ids_distinct
+
+/-- and the frame holds there at full strength, for every id -/
+theorem frame_of_reachable (g : Graph) (hr : Nix.Store.Lemmas.ReachableFresh g) : FrameOn g :=
+  frame_of_noSharedIds g (noSharedIds_of_reachable g hr)
+
+/-- the counterexample graph is exactly a graph with a shared id -/
+example : ¬ NoSharedIds sharedIdGraph := by
+  intro h
+  have := h 4 5 "id:0" (by decide) (by decide)
+  cases this
+
+/-! ## the deletion code *as written in the source* (Generated/DeleteShape) is the model
+
+`harness/extract/delshape.py` renders the statement lists of `Container.__delitem__` and its
+variants, the visitor of `H5Group.delete_all`, the parameters of `H5Group.delete`, the container
+constructor calls, the role-link deleters and the shape of `util/find.py` as the constants of
+`Nix.Store.DelShape.Gen`; `Store/DelShape.lean` gives them a meaning. The theorems below quantify
+over these generated constants: an edit of the deletion code breaks `lake build` here (or no longer
+translates). -/
+
+open Nix.Store.DelShape in
+/-- `del owner.cname[key]`, run statement by statement as `container.py` spells it for the class
+of that container, is the model's `contDel` — every graph, every container, every key form -/
+theorem delitem_follows_source (g : Graph) (p : Path) (cn : String) (c : Cont) (key : Key)
+    (hc : openCont g p cn = some c) :
+    runDel Gen.h5Params (Gen.delitemOf (classOf c.info.flavour)) g c key = contDel g c key :=
+  runDel_eq_contDel g c key (openCont_info hc)
+
+open Nix.Store.DelShape in
+/-- the loop of `H5Group.delete_all`, run over every group as `h5group.py` spells it, is
+`Graph.deleteAll` (in particular: no `break`, every child of every group is tested) -/
+theorem deleteAll_follows_source (g : Graph) (ids : List String) :
+    scanAll g ids Gen.deleteAllScan = g.deleteAll ids :=
+  scanAll_eq_deleteAll g ids
+
+open Nix.Store.DelShape in
+/-- `H5Group.delete` with the depth bound read from the source is the model's `h5Delete`, and a
+call without the keyword (link lists) removes the emptied list group -/
+theorem h5Delete_follows_source (g : Graph) (grp parent : Nat) (lname : String) (depth : Nat) (x : String)
+    (b : Bool) :
+    h5DeleteP Gen.h5Params.minDepth g grp parent lname depth x b = h5Delete g grp parent lname depth x b ∧
+      Gen.h5Params.defaultDeleteIfEmpty = true :=
+  ⟨rfl, rfl⟩
+
+open Nix.Store.DelShape in
+/-- every `Xcontainer("cname", …)` constructor call of the entity modules is a row of
+`containerInfo` with that class and item kind … -/
+theorem containerInfo_follows_source :
+    ∀ e ∈ Gen.containerTable,
+      (containerInfo e.1 e.2.1).map (fun i => (classOf i.flavour, i.item)) = some (e.2.2.1, e.2.2.2) := by
+  decide
+
+open Nix.Store.DelShape in
+/-- … and `containerInfo` has no other rows -/
+theorem containerInfo_only_source (ok cn : String) (info : CInfo) (h : containerInfo ok cn = some info) :
+    (ok, cn, classOf info.flavour, info.item) ∈ Gen.containerTable := by
+  unfold containerInfo at h
+  split at h <;> first | (cases h; decide) | cases h
+
+open Nix.Store.DelShape in
+/-- `del x.metadata`, `section.link = None`, `multi_tag.extents = None`, run as the entity modules
+spell them (guard, `delete(…, delete_if_empty=False)` / `del`), are the model's `setRole … none`:
+in particular none of them prunes the entity's own group -/
+theorem role_clear_follows_source (e : String × String × List RStmt) (he : e ∈ Gen.roleClear)
+    (g : Graph) (p : Path) (o : Loc) (ho : resolve g rootLoc p = some o) (hk : kindOf g o.key = e.1) :
+    setRole g p e.2.1 none = runRole Gen.h5Params g o e.2.2 := by
+  simp only [Gen.roleClear, List.mem_cons, List.not_mem_nil, or_false] at he
+  rcases he with rfl | rfl | rfl | rfl | rfl | rfl | rfl | rfl | rfl
+  all_goals
+    simp only [setRole, ho, hk]
+    first
+      | rw [runRole_guardedDelete _ _ _ (by decide +kernel)]; simp
+      | rw [runRole_guardedDelItem]; simp
+
+open Nix.Store.DelShape in
+/-- the ids `find_sections()` / `find_sources()` collect (breadth first, start included, no filter,
+no depth limit — the shape of `util/find.py`) are the model's `subtreeIds` -/
+theorem subtree_follows_source (g : Graph) (k : Nat) :
+    findIds Gen.findSections g k = some (subtreeIds g "sections" k) ∧
+    findIds Gen.findSources g k = some (subtreeIds g "sources" k) :=
+  ⟨rfl, rfl⟩
+
+open Nix.Store.DelShape in
+/-- **gone, stated on the source's own statements**: whenever the `__delitem__` of an owning
+container, run as written, succeeds on a key addressing entity `k`, no link of any group of the
+result targets an object carrying the id of `k` (or, for sections / sources, an id collected from
+its subtree), and `k` is unreachable from the root -/
+theorem source_delete_gone (g g' : Graph) (p : Path) (cn : String) (c : Cont) (key : Key) (k : Nat)
+    (hc : openCont g p cn = some c) (hown : isOwning c.info.flavour = true)
+    (ht : delTarget g c key = .ok k)
+    (hrun : runDel Gen.h5Params (Gen.delitemOf (classOf c.info.flavour)) g c key = .ok g')
+    (i : String) (hin : i ∈ delIds g c k) :
+    (∀ (q : Nat) (l : String × Nat), l ∈ g'.links q → g'.entityId l.2 ≠ some i) ∧
+    (∀ (d : Nat), g.entityId d = some i → d ≠ 0 → ¬ Reach g' d) := by
+  rw [delitem_follows_source g p cn c key hc] at hrun
+  have hg' : g' = g.deleteAll (delIds g c k) := by
+    rw [contDel_eq, ht] at hrun
+    simp only [hown, ↓reduceIte] at hrun
+    split at hrun
+    · cases hrun
+    · simpa using hrun.symm
+  subst hg'
+  refine ⟨fun q l hl hid => deleteAll_gone g _ q l hl i hid hin, ?_⟩
+  intro d hd hd0
+  apply doomed_unreachable g _ d hd0
+  unfold doomed; rw [hd]; simpa using hin
+
+/-- non-vacuity: in the demo file the source-level `del blk.data_arrays["a"]` succeeds -/
+example : ((openCont demo [.name "data", .name "blk"] "data_arrays").map fun c =>
+    (Nix.Store.DelShape.runDel Nix.Store.DelShape.Gen.h5Params
+      (Nix.Store.DelShape.Gen.delitemOf (Nix.Store.DelShape.classOf c.info.flavour)) demo c (.str "a")).toOption.isSome)
+    = some true := by decide +kernel
 
 end Nix.C04
